@@ -391,7 +391,21 @@ def main():
     native_bad = [(int(x), int(y)) for x, y in got if int(y) != (a * int(x)) % p]
     native_checked = len(got)
     if native_checked != len(xs_struct):
-        inconclusive.append("native evaluation of mul_by_a returned %d of %d values" % (native_checked, len(xs_struct)))
+        # the evaluation did not come back for every element (a panic / abort in the routine): find the elements one by one
+        crashed = []
+        for x in xs_struct:
+            r1 = sh([SYMARK, "zorro-mul-by-a", str(x)])
+            g1 = re.findall(r"x=(\d+) mul_by_a\(x\)=(\d+)", r1.stdout)
+            if not g1:
+                crashed.append((x, (r1.stderr or "").strip().split("\n")[-1][:200]))
+            elif int(g1[0][1]) != (a * x) % p and (x, int(g1[0][1])) not in native_bad:
+                native_bad.append((x, int(g1[0][1])))
+        native_checked = len(xs_struct) - len(crashed)
+        if crashed:
+            path = os.path.join(VERIF, "replays", "C14", "mul_by_a_panics.json")
+            os.makedirs(os.path.dirname(path), exist_ok=True)
+            json.dump({"property": "C14", "what": "mul_by_a(x) does not return for these field elements (panic / abort)", "x": [str(x) for x, _ in crashed[:8]], "stderr": [e for _, e in crashed[:8]], "cmd": "%s zorro-mul-by-a %s" % (SYMARK, " ".join(str(x) for x, _ in crashed[:8]))}, open(path, "w"), indent=1)
+            violations.append(("mul_by_a(x) returns a*x for every field element: the routine panics / aborts on %d structured element(s), first x = %d (%s)" % (len(crashed), crashed[0][0], crashed[0][1]), path))
     if native_bad:
         path = os.path.join(VERIF, "replays", "C14", "mul_by_a_structured.json")
         os.makedirs(os.path.dirname(path), exist_ok=True)
